@@ -7,6 +7,9 @@ CONSTANTS NB = 3
  BugAddMiddle = FALSE
  BugTxLoopVar = TRUE
  BugConfirmRace = FALSE
+ MaxBatch = 0
+ NBatch = 0
+ BugBatchBreak = FALSE
 INVARIANTS TxOnce
 PROPERTY Forward
 CHECK_DEADLOCK FALSE
